@@ -7,7 +7,16 @@
 #include "sess.h"
 #include <rfb/rfbregion.h>
 
+#include <sys/time.h>
 #define MAXC 8
+/* virtual clock: the library's gettimeofday() calls see script-controlled time */
+static long long vclock_us = 1000000000LL;
+int gettimeofday(struct timeval *tv, void *tz) {
+  (void)tz;
+  if (tv) { tv->tv_sec = (time_t)(vclock_us / 1000000); tv->tv_usec = (suseconds_t)(vclock_us % 1000000); }
+  return 0;
+}
+static int softcur[MAXC];
 static rfbScreenInfoPtr scr;
 static int W, H;
 static vh_conn conns[MAXC];
@@ -46,6 +55,7 @@ static void oracle_inv(int n) {
   rfbClientPtr cl = conns[n].cl; uint32_t *fb = (uint32_t *)scr->frameBuffer;
   unsigned char *m, *c; int x, y, bad = 0, bx = -1, by = -1;
   if (!cl) return;
+  if (softcur[n]) { printf("!inv %d skip-softcursor idle=%d\n", n, sraRgnEmpty(cl->modifiedRegion) && sraRgnEmpty(cl->copyRegion)); return; }
   m = mask_of(cl->modifiedRegion); c = mask_of(cl->copyRegion);
   for (y = 0; y < H; y++) for (x = 0; x < W; x++) {
     if (m[y * W + x]) continue;
@@ -146,7 +156,16 @@ int main(void) {
       if (cs) { m[k] = 0xFF; m[k+1] = 0xFF; m[k+2] = 0xFF; m[k+3] = 0x10; k += 4; }
       vh_send(&conns[id], m, (size_t)k);
       rfbProcessClientMessage(conns[id].cl);
+      softcur[id] = !cs;
       puts("ok");
+    } else if (!strcmp(tok[0], "defer") && n == 2) {
+      scr->deferUpdateTime = atoi(tok[1]); puts("ok");
+    } else if (!strcmp(tok[0], "clock") && n == 2) {
+      vclock_us += atoll(tok[1]); puts("ok");
+    } else if (!strcmp(tok[0], "ptr") && n == 3) {
+      int k, done = 0;
+      for (k = 0; k < MAXC && !done; k++) if (used[k] && conns[k].cl) { rfbDefaultPtrAddEvent(0, atoi(tok[1]), atoi(tok[2]), conns[k].cl); done = 1; }
+      puts(done ? "ok" : "bad-op");
     } else if ((!strcmp(tok[0], "draw") && n == 6) || (!strcmp(tok[0], "mark") && n == 5)) {
       int x1 = atoi(tok[1]), y1 = atoi(tok[2]), x2 = atoi(tok[3]), y2 = atoi(tok[4]);
       if (tok[0][0] == 'd') {
